@@ -9,6 +9,8 @@
    Statements only; proofs in Proofs/OpP.v, Proofs/ConformP.v, Proofs/InterpP.v. *)
 From V Require Import Base.Prelude Base.Ints Model.Script Model.Op Model.Interp Spec.Consensus
   Proofs.OpP Proofs.ConformP Proofs.StackOkP Proofs.InterpP Proofs.ProgramP Proofs.P2shP Proofs.FlagsP.
+From V Require Import Model.OpMode Model.Timelock Spec.ConsensusLimits Spec.Timelocks
+  Proofs.OpModeP Proofs.AnyListP Proofs.LimitsP Proofs.TimelockP Model.OpNum Proofs.OpNumP.
 
 (* ------------------------------------------------------------------ (1) number codec *)
 
@@ -230,3 +232,374 @@ From V Require Proofs.ConstsTie.
 Theorem C07_constants_match_source : ConstsTie.timelock_is_source_stmt /\ ConstsTie.op_table_domain_is_source_stmt /\ ConstsTie.op_nop_codes_are_source_stmt.
 Proof. exact (conj ConstsTie.timelock_is_source (conj ConstsTie.op_table_domain_is_source ConstsTie.op_nop_codes_are_source)). Qed.
 Print Assumptions C07_constants_match_source.
+
+(* ================================================================== (5) the failure MODE
+
+   Model/OpMode.v is a second, finer mirror of buidl/op.py and Script.evaluate in which "returns False"
+   (MFalse / XFalse) and "raises" (MRaise e / XRaise e) are different results, with the guards
+   (`if len(stack) < k: return False`) and the list accesses (pop / index, which raise IndexError on their own)
+   modelled separately.  Model/Op.v and Model/Interp.v ([Err], [OFalse]) identify the two. *)
+
+(* it is a refinement: forgetting the mode gives the model the theorems above are about, for every integer
+   command on every stack and for Script.evaluate on every command list and every flag combination *)
+Theorem C07_mode_refines_model :
+  forall (ripemd160 sha1 sha256 : bytes -> bytes) c,
+  (forall o rest s a,
+     collapse (m_exec_op (m_lib_table ripemd160 sha1 sha256) c o rest s a) =
+     Interp.exec_op (lib_table ripemd160 sha1 sha256) c o rest s a) /\
+  (forall ap aw cmds,
+     xcollapse (m_evaluate (m_lib_table ripemd160 sha1 sha256) c ap aw cmds) =
+     evaluate (lib_table ripemd160 sha1 sha256) c ap aw cmds).
+Proof.
+  intros r1 r2 r3 c. split; [intros; apply exec_collapse | intros; apply evaluate_collapse].
+Qed.
+Print Assumptions C07_mode_refines_model.
+
+(* EXACTLY which integer command raises what on which stack ([step_raise], Proofs/OpModeP.v: KeyError for a
+   command that is no key of OP_CODE_FUNCTIONS; ValueError in CLTV / CSV when Locktime(...) / Sequence(...) is
+   reached with an operand above 2^32-1; the signature op codes 172-175 are C06's); everywhere else the function
+   returns False exactly where the coarse model fails and otherwise yields the same stacks *)
+Theorem C07_opcode_failure_mode_exact :
+  forall (ripemd160 sha1 sha256 : bytes -> bytes) c o rest s a,
+  m_exec_op (m_lib_table ripemd160 sha1 sha256) c o rest s a =
+  match step_raise c o s with
+  | Some e => MRaise e
+  | None => inj (Interp.exec_op (lib_table ripemd160 sha1 sha256) c o rest s a)
+  end.
+Proof. exact exec_mode. Qed.
+Print Assumptions C07_opcode_failure_mode_exact.
+
+(* the guards of the op code functions are sufficient: no pop / index ever raises IndexError, on ANY stack and
+   alt stack (a guard that is off by one makes this theorem fail for that op code) *)
+Theorem C07_no_index_error :
+  forall (ripemd160 sha1 sha256 : bytes -> bytes) c o rest s a,
+  m_exec_op (m_lib_table ripemd160 sha1 sha256) c o rest s a <> MRaise EIndex.
+Proof. exact no_index_error. Qed.
+Print Assumptions C07_no_index_error.
+
+Theorem C07_key_error_iff :
+  forall (ripemd160 sha1 sha256 : bytes -> bytes) c o rest s a,
+  m_exec_op (m_lib_table ripemd160 sha1 sha256) c o rest s a = MRaise EKey <-> in_table o = false.
+Proof. exact key_error_iff. Qed.
+Print Assumptions C07_key_error_iff.
+
+Theorem C07_value_error_iff :
+  forall (ripemd160 sha1 sha256 : bytes -> bytes) c o rest s a,
+  m_exec_op (m_lib_table ripemd160 sha1 sha256) c o rest s a = MRaise EValue <->
+  (o = 177 /\ cltv_raises c s = true) \/ (o = 178 /\ csv_raises c s = true).
+Proof. exact value_error_iff. Qed.
+Print Assumptions C07_value_error_iff.
+
+(* single op codes, with the mode: where the spec has an opinion the library function RETURNS False (does not
+   raise) exactly where consensus fails, and otherwise leaves the consensus stacks *)
+Theorem C07_opcode_mode_conformance :
+  forall (ripemd160 sha1 sha256 : bytes -> bytes) c o rest s a,
+  is_ctl o = false -> o <> 113 -> Forall bytes_ok s -> Forall bytes_ok a ->
+  agree_m (m_exec_op (m_lib_table ripemd160 sha1 sha256) c o rest s a) rest
+          (spec_step ripemd160 sha1 sha256 c o s a).
+Proof. exact step_mode_conformance. Qed.
+Print Assumptions C07_opcode_mode_conformance.
+
+Example C07_failure_mode_examples :
+  forall (r1 r2 r3 : bytes -> bytes) c,
+  m_exec_op (m_lib_table r1 r2 r3) c 109 [] [[1]] [] = MFalse /\                 (* 2DROP on one item *)
+  m_exec_op (m_lib_table r1 r2 r3) c 103 [] [[1]] [] = MRaise EKey /\            (* ELSE is not in the table *)
+  m_exec_op (m_lib_table r1 r2 r3) c 186 [] [[1]] [] = MRaise EKey /\
+  m_exec_op (m_lib_table r1 r2 r3) {| t_locktime := 0; t_sequence := 0; t_version := 2 |} 177 []
+    [[5; 0; 0; 0; 1]] [] = MRaise EValue /\                                       (* Locktime(2^32+5) *)
+  spec_step r1 r2 r3 {| t_locktime := 0; t_sequence := 0; t_version := 2 |} 177 [[5; 0; 0; 0; 1]] [] = SOOS.
+Proof. intros. repeat split; reflexivity. Qed.
+
+(* ================================================================== (6) arbitrary command lists
+
+   [cmds_okb]: every push is a byte string, no OP_2ROT (K-C07-2rot) — nothing about nesting.
+   [ns 0 cmds]: no OP_ELSE / OP_ENDIF outside every conditional. *)
+
+(* what the scan of op_if / op_notif accepts *)
+Theorem C07_op_if_characterised : forall neg e s items, cmds_okb items = true ->
+  (exists body rest, wf_items body = true /\ items = flatten body ++ Op 104 :: rest /\
+     op_if_gen neg (e :: s) items =
+     Ok (s, flatten (select (xorb (negb (decode_num e =? 0)) neg) body) ++ rest))
+  \/ ((forall body rest, wf_items body = true -> items <> flatten body ++ Op 104 :: rest) /\
+      op_if_gen neg (e :: s) items = Err).
+Proof. exact op_if_characterised. Qed.
+Print Assumptions C07_op_if_characterised.
+
+(* C07_program_conformance_flags without the nesting hypothesis: EVERY command list (stray ELSE / ENDIF,
+   unterminated IF included), every context, every flag combination *)
+Theorem C07_all_lists_conformance :
+  forall (ripemd160 sha1 sha256 : bytes -> bytes),
+  (forall x, bytes_ok (ripemd160 x)) -> (forall x, bytes_ok (sha1 x)) -> (forall x, bytes_ok (sha256 x)) ->
+  forall c (allow_p2sh allow_witness : bool) cmds,
+  cmds_okb cmds = true ->
+  rel (evaluate (lib_table ripemd160 sha1 sha256) c allow_p2sh allow_witness cmds)
+      (consensus_verdict ripemd160 sha1 sha256 (to_ctx c) allow_p2sh allow_witness cmds).
+Proof. exact any_list_conformance_flags. Qed.
+Print Assumptions C07_all_lists_conformance.
+
+(* ... and with the failure mode: consensus accepts -> True; consensus rejects -> the library RETURNS False,
+   or, only if the list has an OP_ELSE / OP_ENDIF outside every conditional, raises KeyError *)
+Theorem C07_all_lists_failure_mode :
+  forall (ripemd160 sha1 sha256 : bytes -> bytes),
+  (forall x, bytes_ok (ripemd160 x)) -> (forall x, bytes_ok (sha1 x)) -> (forall x, bytes_ok (sha256 x)) ->
+  forall c (allow_p2sh allow_witness : bool) cmds,
+  cmds_okb cmds = true ->
+  rel_m (ns 0 cmds) (m_evaluate (m_lib_table ripemd160 sha1 sha256) c allow_p2sh allow_witness cmds)
+        (consensus_verdict ripemd160 sha1 sha256 (to_ctx c) allow_p2sh allow_witness cmds).
+Proof. exact any_list_mode_flags. Qed.
+Print Assumptions C07_all_lists_failure_mode.
+
+(* properly nested programs: the library returns False (never raises) exactly where consensus rejects *)
+Theorem C07_program_failure_mode :
+  forall (ripemd160 sha1 sha256 : bytes -> bytes),
+  (forall x, bytes_ok (ripemd160 x)) -> (forall x, bytes_ok (sha1 x)) -> (forall x, bytes_ok (sha256 x)) ->
+  forall c (allow_p2sh allow_witness : bool) p,
+  wf_prog p = true ->
+  rel_m true (m_evaluate (m_lib_table ripemd160 sha1 sha256) c allow_p2sh allow_witness (flatten p))
+        (consensus_verdict ripemd160 sha1 sha256 (to_ctx c) allow_p2sh allow_witness (flatten p)).
+Proof. exact program_mode_flags. Qed.
+Print Assumptions C07_program_failure_mode.
+
+(* an exception can escape an in-scope evaluation only as the KeyError of a stray OP_ELSE / OP_ENDIF, on a
+   script consensus rejects *)
+Theorem C07_raise_only_stray_else_endif :
+  forall (ripemd160 sha1 sha256 : bytes -> bytes),
+  (forall x, bytes_ok (ripemd160 x)) -> (forall x, bytes_ok (sha1 x)) -> (forall x, bytes_ok (sha256 x)) ->
+  forall c (ap aw : bool) cmds e, cmds_okb cmds = true ->
+  m_evaluate (m_lib_table ripemd160 sha1 sha256) c ap aw cmds = XRaise e ->
+  consensus_verdict ripemd160 sha1 sha256 (to_ctx c) ap aw cmds <> OutOfScope ->
+  e = EKey /\ ns 0 cmds = false /\ consensus_verdict ripemd160 sha1 sha256 (to_ctx c) ap aw cmds = Reject.
+Proof. exact raise_only_stray. Qed.
+Print Assumptions C07_raise_only_stray_else_endif.
+
+(* "where consensus rejects the library returns False" is refuted for ill-nested scripts: 1 ELSE is rejected
+   by consensus (unbalanced conditional) and Script([0x51, 0x67]).evaluate(tx, i) raises KeyError(103)
+   (replayed on the code) *)
+Theorem C07_reject_returns_false_refuted :
+  exists cmds c, cmds_okb cmds = true /\
+  forall (r1 r2 r3 : bytes -> bytes) (ap aw : bool),
+    consensus_verdict r1 r2 r3 (to_ctx c) ap aw cmds = Reject /\
+    m_evaluate (m_lib_table r1 r2 r3) c ap aw cmds = XRaise EKey /\
+    evaluate (lib_table r1 r2 r3) c ap aw cmds = OFalse.
+Proof. exact stray_else_raises. Qed.
+Print Assumptions C07_reject_returns_false_refuted.
+
+(* non-vacuity: ill-nested lists satisfy the hypothesis; what both sides do with them *)
+Example C07_ill_nested_examples :
+  let idh := fun x : bytes => x in
+  let c := {| t_locktime := 0; t_sequence := 0; t_version := 2 |} in
+  let ev := m_evaluate (m_lib_table idh idh idh) c false false in
+  let cs := eval_script idh idh idh (to_ctx c) false in
+  cmds_okb [Op 81; Op 99; Op 81] = true /\ ns 0 [Op 81; Op 99; Op 81] = true /\
+  ev [Op 81; Op 99; Op 81] = XFalse /\ cs [Op 81; Op 99; Op 81] = Reject /\           (* 1 IF 1: unterminated *)
+  ns 0 [Op 0; Op 99; Op 104; Op 104; Op 81] = false /\
+  ev [Op 0; Op 99; Op 104; Op 104; Op 81] = XRaise EKey /\ cs [Op 0; Op 99; Op 104; Op 104; Op 81] = Reject /\
+  ev [Op 0; Op 99; Op 99; Op 104; Op 81] = XFalse /\ cs [Op 0; Op 99; Op 99; Op 104; Op 81] = Reject /\
+  ev [Op 81; Op 106; Op 103] = XFalse /\ cs [Op 81; Op 106; Op 103] = Reject.       (* fails before the stray ELSE *)
+Proof. cbv zeta. repeat split; vm_compute; reflexivity. Qed.
+
+(* ================================================================== (7) resource limits
+
+   Spec/ConsensusLimits.v adds the four limits of Core's EvalScript to the spec ([run_lim], [eval_script_lim]):
+   push size 520, 201 op codes above OP_16 (counted whether executed or not), 1000 items on stack + alt stack,
+   script size 10000.  The library enforces NONE of them. *)
+
+Theorem C07_stack_growth_at_most_3 :
+  forall (ripemd160 sha1 sha256 : bytes -> bytes) c o s a s' a',
+  Consensus.exec_op ripemd160 sha1 sha256 c o (s, a) = SOk (s', a') ->
+  zlen s' + zlen a' <= zlen s + zlen a + 3.
+Proof. exact exec_growth. Qed.
+Print Assumptions C07_stack_growth_at_most_3.
+
+(* inside the static bounds (<= 10000 bytes, pushes <= 520 bytes, <= 201 counted op codes, <= 333 commands)
+   no limit can fire: the spec without limits IS consensus there *)
+Theorem C07_limits_unreachable :
+  forall (ripemd160 sha1 sha256 : bytes -> bytes) c xw cmds,
+  within_limits cmds = true ->
+  eval_script_lim ripemd160 sha1 sha256 c xw cmds = eval_script ripemd160 sha1 sha256 c xw cmds.
+Proof. exact limits_unreachable. Qed.
+Print Assumptions C07_limits_unreachable.
+
+(* the property's quantifier (at most 40 operations) is inside the bounds *)
+Theorem C07_forty_operations_within_limits : forall cmds,
+  (length cmds <= 40)%nat -> forallb push_small cmds = true -> script_size cmds <= MAX_SCRIPT_SIZE ->
+  within_limits cmds = true.
+Proof. exact forty_within_limits. Qed.
+Print Assumptions C07_forty_operations_within_limits.
+
+(* hence conformance against consensus INCLUDING its limits, for every command list inside the bounds *)
+Theorem C07_conformance_with_limits :
+  forall (ripemd160 sha1 sha256 : bytes -> bytes),
+  (forall x, bytes_ok (ripemd160 x)) -> (forall x, bytes_ok (sha1 x)) -> (forall x, bytes_ok (sha256 x)) ->
+  forall c xw cmds,
+  cmds_okb cmds = true -> within_limits cmds = true ->
+  rel_m (ns 0 cmds) (m_evaluate (m_lib_table ripemd160 sha1 sha256) c false xw cmds)
+        (eval_script_lim ripemd160 sha1 sha256 (to_ctx c) xw cmds).
+Proof. exact conformance_with_limits. Qed.
+Print Assumptions C07_conformance_with_limits.
+
+(* beyond each bound the library differs from consensus: a 521-byte push, OP_1 followed by 202 OP_NOP,
+   1001 times OP_1, twenty 520-byte pushes (10460 bytes) are rejected by consensus on the limit alone and
+   accepted by Script.evaluate (each replayed on the code) *)
+Theorem C07_resource_limits_refuted :
+  limit_gap w_push_size /\ limit_gap w_op_count /\ limit_gap w_stack_size /\
+  (script_size w_script_size = 10460 /\
+   eval_script_lim idh idh idh (to_ctx ctx0) false w_script_size = Reject /\
+   evaluate (lib_table idh idh idh) ctx0 false false w_script_size = OTrue).
+Proof.
+  exact (conj push_size_not_enforced (conj op_count_not_enforced (conj stack_size_not_enforced
+           script_size_not_enforced))).
+Qed.
+Print Assumptions C07_resource_limits_refuted.
+
+(* ================================================================== (8) the classes Locktime and Sequence
+
+   Model/Timelock.v mirrors buidl/timelock.py; Spec/Timelocks.v states BIP65 / BIP68 / BIP112 with arithmetic
+   (no bit operations).  All theorems are for ALL integers (the classes hold 0 .. 2^32-1). *)
+
+Theorem C07_timelock_new_iff : forall n,
+  (lt_new n = Ok n <-> 0 <= n <= 4294967295) /\ (lt_new n = Err <-> ~ 0 <= n <= 4294967295) /\
+  (sq_new n = Ok n <-> 0 <= n <= 4294967295) /\ (sq_new n = Err <-> ~ 0 <= n <= 4294967295).
+Proof. exact new_iff. Qed.
+Print Assumptions C07_timelock_new_iff.
+
+Theorem C07_timelock_parse_total : forall s, bytes_ok s ->
+  lt_parse s = Ok (from_le (firstn 4 s)) /\ sq_parse s = Ok (from_le (firstn 4 s)).
+Proof. exact parse_total. Qed.
+Print Assumptions C07_timelock_parse_total.
+
+Theorem C07_timelock_serialize_parse : forall n rest, 0 <= n <= 4294967295 -> bytes_ok rest ->
+  exists b, lt_serialize n = Ok b /\ sq_serialize n = Ok b /\ length b = 4%nat /\
+            lt_parse (b ++ rest) = Ok n /\ sq_parse (b ++ rest) = Ok n.
+Proof. exact serialize_parse. Qed.
+Print Assumptions C07_timelock_serialize_parse.
+
+Theorem C07_timelock_parse_serialize : forall s, bytes_ok s -> (4 <= length s)%nat ->
+  lt_serialize (from_le (firstn 4 s)) = Ok (firstn 4 s) /\ sq_serialize (from_le (firstn 4 s)) = Ok (firstn 4 s).
+Proof. exact parse_serialize. Qed.
+Print Assumptions C07_timelock_parse_serialize.
+
+(* BIP65: comparable <-> same kind (height / time); `<` raises exactly when not comparable *)
+Theorem C07_locktime_bip65 : forall a b,
+  lt_comparable a b = same_kind (locktime_kind a) (locktime_kind b) /\
+  lt_lt a b = (if same_kind (locktime_kind a) (locktime_kind b) then Ok (a <? b) else Err) /\
+  lt_block_height a = (match locktime_kind a with Height => Some a | Time => None end) /\
+  lt_mtp a = (match locktime_kind a with Time => Some a | Height => None end).
+Proof. exact locktime_bip65. Qed.
+Print Assumptions C07_locktime_bip65.
+
+(* BIP68: what a sequence value means, for every value *)
+Theorem C07_sequence_bip68 : forall n,
+  match bip68 n with
+  | NoRelativeLock =>
+      sq_relative n = false /\ sq_relative_time n = false /\ sq_relative_block n = false /\
+      sq_relative_blocks n = None /\ sq_relative_seconds n = None
+  | Blocks k =>
+      sq_relative n = true /\ sq_relative_time n = false /\ sq_relative_block n = true /\
+      sq_relative_blocks n = Some k /\ sq_relative_seconds n = None
+  | Seconds k =>
+      sq_relative n = true /\ sq_relative_time n = true /\ sq_relative_block n = false /\
+      sq_relative_blocks n = None /\ sq_relative_seconds n = Some k
+  end.
+Proof. exact sequence_bip68. Qed.
+Print Assumptions C07_sequence_bip68.
+
+(* BIP112: comparable <-> both block based or both time based; `<` compares the 16-bit values and raises
+   exactly when not comparable *)
+Theorem C07_sequence_bip112 : forall a b,
+  sq_comparable a b = bip112_comparable a b /\
+  sq_lt a b = (if bip112_comparable a b then Ok (bip68_value a <? bip68_value b) else Err).
+Proof. exact sequence_bip112. Qed.
+Print Assumptions C07_sequence_bip112.
+
+Theorem C07_from_relative_blocks_ok : forall k, 0 <= k < 65536 ->
+  sq_from_relative_blocks k = Ok k /\ bip68 k = Blocks k.
+Proof. exact from_relative_blocks_ok. Qed.
+Print Assumptions C07_from_relative_blocks_ok.
+
+(* a relative time is rounded DOWN to a multiple of 512 seconds *)
+Theorem C07_from_relative_time_ok : forall secs, 0 <= secs < 33554432 ->
+  let v := 4194304 + secs / 512 in
+  sq_from_relative_time secs = Ok v /\ bip68 v = Seconds (512 * (secs / 512)) /\
+  secs - 512 < 512 * (secs / 512) <= secs.
+Proof. exact from_relative_time_ok. Qed.
+Print Assumptions C07_from_relative_time_ok.
+
+(* beyond 16 bits the constructors do not validate: Sequence.from_relative_blocks(65536) is a lock of 0
+   blocks, from_relative_blocks(1 << 22) a lock of 0 seconds, from_relative_blocks(1 << 31) no lock at all,
+   from_relative_time(65536 * 512) a lock of 0 seconds — none raises (replayed on the code) *)
+Theorem C07_from_relative_unchecked_refuted :
+  (sq_from_relative_blocks 65536 = Ok 65536 /\ bip68 65536 = Blocks 0) /\
+  (sq_from_relative_blocks 4194304 = Ok 4194304 /\ bip68 4194304 = Seconds 0) /\
+  (sq_from_relative_blocks 2147483648 = Ok 2147483648 /\ bip68 2147483648 = NoRelativeLock) /\
+  (sq_from_relative_time 33554432 = Ok 4259840 /\ bip68 4259840 = Seconds 0).
+Proof. exact from_relative_unchecked. Qed.
+Print Assumptions C07_from_relative_unchecked_refuted.
+
+(* ================================================================== (9) small-number helpers and their use
+
+   Model/OpNum.v mirrors number_to_op_code_byte / number_to_op_code / op_code_to_number / encode_minimal_num. *)
+
+Theorem C07_number_codes : forall n,
+  (-1 <= n <= 16 ->
+     let o := if n =? 0 then 0 else n + 80 in
+     number_to_op_code n = Ok o /\ number_to_op_code_byte n = Ok [o] /\ op_code_to_number o = Ok n) /\
+  (~ -1 <= n <= 16 -> number_to_op_code n = Err /\ number_to_op_code_byte n = Err).
+Proof. exact number_codes. Qed.
+Print Assumptions C07_number_codes.
+
+Theorem C07_op_code_to_number_inv : forall o n,
+  op_code_to_number o = Ok n -> o <> 80 -> number_to_op_code n = Ok o.
+Proof. exact op_code_to_number_inv. Qed.
+Print Assumptions C07_op_code_to_number_inv.
+
+(* ... but op_code_to_number(80) = 0 although 80 (OP_RESERVED) pushes nothing and is not in the table *)
+Theorem C07_op_code_to_number_80_refuted : forall r1 r2 r3 : bytes -> bytes,
+  op_code_to_number 80 = Ok 0 /\ number_to_op_code 0 = Ok 0 /\ lib_table r1 r2 r3 80 = None.
+Proof. exact op_code_to_number_80. Qed.
+Print Assumptions C07_op_code_to_number_80_refuted.
+
+(* composition: the command encode_minimal_num(n) (an op code for -1..16, a data push otherwise) leaves exactly
+   the serialisation of n on the stack, in Script.evaluate and in consensus *)
+Theorem C07_minimal_push_step :
+  forall (ripemd160 sha1 sha256 : bytes -> bytes) c n, zlen (encode_num n) <= 520 ->
+  exists cm, encode_minimal_num n = Ok cm /\
+  (forall f rest s a,
+     m_eval_loop (m_lib_table ripemd160 sha1 sha256) c false false (S f) (cm :: rest) s a =
+     m_eval_loop (m_lib_table ripemd160 sha1 sha256) c false false f rest (encode_num n :: s) a) /\
+  (forall rest s a, Consensus.run ripemd160 sha1 sha256 (to_ctx c) false (cm :: rest) [] (s, a) =
+                    Consensus.run ripemd160 sha1 sha256 (to_ctx c) false rest [] (encode_num n :: s, a)).
+Proof. exact minimal_push_step. Qed.
+Print Assumptions C07_minimal_push_step.
+
+(* composition codec -> interpreter -> BIP65 / BIP112, for every 32-bit n and every context: the script
+   [encode_minimal_num(n), OP_CHECKLOCKTIMEVERIFY, OP_DROP, OP_1] (the prefix buidl/taproot.py builds) is accepted
+   exactly when CheckLockTime(n) holds and otherwise rejected by returning False; likewise CSV *)
+Theorem C07_cltv_commands :
+  forall (ripemd160 sha1 sha256 : bytes -> bytes) c n, 0 <= n <= 4294967295 ->
+  exists cm, encode_minimal_num n = Ok cm /\
+  m_evaluate (m_lib_table ripemd160 sha1 sha256) c false false [cm; Op 177; Op 117; Op 81] =
+    (if check_locktime (to_ctx c) n then XTrue else XFalse) /\
+  eval_script ripemd160 sha1 sha256 (to_ctx c) false [cm; Op 177; Op 117; Op 81] =
+    (if check_locktime (to_ctx c) n then Accept else Reject).
+Proof. exact cltv_commands. Qed.
+Print Assumptions C07_cltv_commands.
+
+Theorem C07_csv_commands :
+  forall (ripemd160 sha1 sha256 : bytes -> bytes) c n, 0 <= n <= 4294967295 ->
+  let ok := negb (Z.land n SEQUENCE_LOCKTIME_DISABLE_FLAG =? 0) || check_sequence (to_ctx c) n in
+  exists cm, encode_minimal_num n = Ok cm /\
+  m_evaluate (m_lib_table ripemd160 sha1 sha256) c false false [cm; Op 178; Op 117; Op 81] =
+    (if ok then XTrue else XFalse) /\
+  eval_script ripemd160 sha1 sha256 (to_ctx c) false [cm; Op 178; Op 117; Op 81] =
+    (if ok then Accept else Reject).
+Proof. exact csv_commands. Qed.
+Print Assumptions C07_csv_commands.
+
+Example C07_cltv_commands_examples :
+  let idh := fun x : bytes => x in
+  let c := {| t_locktime := 500000005; t_sequence := 0; t_version := 2 |} in
+  encode_minimal_num 5 = Ok (Op 85) /\ encode_minimal_num 500000000 = Ok (Push [0; 101; 205; 29]) /\
+  m_evaluate (m_lib_table idh idh idh) c false false [Push [0; 101; 205; 29]; Op 177; Op 117; Op 81] = XTrue /\
+  m_evaluate (m_lib_table idh idh idh) c false false [Op 85; Op 177; Op 117; Op 81] = XFalse.
+Proof. cbv zeta. repeat split; vm_compute; reflexivity. Qed.
